@@ -148,3 +148,70 @@ def clippy_crossref(rep, rid):
                 rep.ok(R, f'{label}|control', f'control found {len(ctl)} times')
     finally:
         subprocess.run(['rm', '-rf', conf])
+
+
+def path_to(root, target):
+    """[(ancestor node, key under which the next step hangs)] from root down to target (identity), or None"""
+    if root is target:
+        return []
+    if isinstance(root, dict):
+        for k, v in root.items():
+            if isinstance(v, dict):
+                r = path_to(v, target)
+                if r is not None:
+                    return [(root, k)] + r
+            elif isinstance(v, list):
+                for x in v:
+                    if isinstance(x, dict):
+                        r = path_to(x, target)
+                        if r is not None:
+                            return [(root, k)] + r
+    return None
+
+
+def conditions_above(root, target):
+    """condition expressions (if conditions of taken then-branches, match-arm guards) that control `target` inside `root`"""
+    p = path_to(root, target)
+    out = []
+    if p is None:
+        return out
+    for node, key in p:
+        if node.get('k') == 'if' and key == 'then':
+            out.append(node['cond'])
+        if 'guard' in node and key == 'body' and node.get('guard') is not None:
+            out.append(node['guard'])
+    return out
+
+
+SORT_FNS = ('toml_edit::table::Table::sort_values', 'toml_edit::table::Table::sort_values_by_internal',
+            'toml_edit::inline_table::InlineTable::sort_values', 'toml_edit::inline_table::InlineTable::sort_values_by_internal')
+
+
+def sort_recursion(rep, R, facts):
+    """the four sorting functions: own entries sorted in place, recursion only into dotted children, through the same function
+    with the same comparison"""
+    from .core import walk, peel, last_seg, strip_generics, callee_all
+    for d in SORT_FNS:
+        if not facts.has_body(d):
+            rep.incomplete(R, d, f'`{d}` not found')
+            continue
+        b = facts.body(d)
+        own = [n for n in walk(b['body']) if n.get('k') == 'mcall' and n.get('name') in ('sort_keys', 'sort_by', 'sort_by_key', 'sort_by_cached_key')
+               and peel(n['recv']).get('k') == 'field' and peel(n['recv']).get('name') == 'items']
+        rep.check(R, f'{d}|sorts-own-items', len(own) == 1, f'self.items.{own[0]["name"] if own else "?"}', f'`{d}` does not sort its own `items` exactly once', facts.loc(b))
+        rec = [n for n in walk(b['body']) if n.get('k') == 'mcall' and (n.get('name') or '').startswith('sort_values')]
+        problems = []
+        for n in rec:
+            tgt = [strip_generics(c) for c in callee_all(n)]
+            if strip_generics(d) not in tgt:
+                problems.append(f'line {n.get("l")}: recursion goes to `{last_seg(tgt[0]) if tgt else n.get("name")}` instead of `{last_seg(d)}` (a different order is applied to dotted children)')
+            conds = conditions_above(b['body'], n)
+            if not any(x.get('k') == 'mcall' and x.get('name') == 'is_dotted' for c in conds for x in walk(c)):
+                problems.append(f'line {n.get("l")}: recursion into a child is not guarded by is_dotted() (sub-tables with their own header would be re-ordered)')
+            if d.endswith('_internal'):
+                pn = [p.get('name') for p in b.get('params', []) if p.get('k') == 'p_bind'][1:]
+                a0 = peel(n['args'][0]) if n.get('args') else {}
+                if not (a0.get('k') == 'path' and a0.get('path') in pn):
+                    problems.append(f'line {n.get("l")}: the comparison function is not passed on to the recursion')
+        rep.check(R, f'{d}|recursion', len(rec) == 1 and not problems, 'one self-recursive call, guarded by is_dotted()' + (', comparison passed on' if d.endswith('_internal') else ''),
+                  f'`{d}`: ' + ('; '.join(problems) if problems else f'{len(rec)} recursive sort calls instead of 1'), facts.loc(b))
